@@ -91,7 +91,7 @@ func (s *Translator) aggregateTraversalCountQuery(shape optimize.AggregateTraver
 	}
 	if shape.ReturnCount {
 		projection = append(projection, pgsql.AliasedExpression{
-			Expression: pgsql.CompoundIdentifier{aggregateRankedCTE, pgsql.Identifier(shape.CountAlias)},
+			Expression: pgsql.CompoundIdentifier{aggregateRankedCTE, aggregateCountColumn(shape.CountAlias)},
 			Alias:      pgsql.AsOptionalIdentifier(pgsql.Identifier(shape.ReturnCountAlias)),
 		})
 	}
@@ -130,7 +130,7 @@ func (s *Translator) aggregateTraversalCountQuery(shape optimize.AggregateTraver
 			}},
 		},
 		OrderBy: []*pgsql.OrderBy{{
-			Expression: pgsql.CompoundIdentifier{aggregateRankedCTE, pgsql.Identifier(shape.CountAlias)},
+			Expression: pgsql.CompoundIdentifier{aggregateRankedCTE, aggregateCountColumn(shape.CountAlias)},
 			Ascending:  false,
 		}},
 	}, nil
@@ -371,8 +371,31 @@ func (s *Translator) buildAggregateTerminalNodesCTE(shape optimize.AggregateTrav
 	}, nil
 }
 
+// aggregateCountColumn names the count column of the ranked CTE. The user's alias is kept when it is a plain identifier
+// that does not clash with the CTE's own column; any other alias is replaced by a fixed internal name, since a column
+// name is written to the statement as it is. The alias the user asked for is still applied by the final projection.
+func aggregateCountColumn(alias string) pgsql.Identifier {
+	plain := alias != "" && alias != aggregateRootID.String()
+
+	for idx, char := range alias {
+		isLetter := char == '_' || (char >= 'a' && char <= 'z') || (char >= 'A' && char <= 'Z')
+		isDigit := char >= '0' && char <= '9'
+
+		if !isLetter && !(isDigit && idx > 0) {
+			plain = false
+			break
+		}
+	}
+
+	if plain {
+		return pgsql.Identifier(alias)
+	}
+
+	return "terminal_count"
+}
+
 func (s *Translator) buildAggregateRankedCTE(shape optimize.AggregateTraversalCountShape) pgsql.CommonTableExpression {
-	countAlias := pgsql.Identifier(shape.CountAlias)
+	countAlias := aggregateCountColumn(shape.CountAlias)
 
 	return pgsql.CommonTableExpression{
 		Alias: pgsql.TableAlias{
